@@ -12,6 +12,7 @@ Not covered here (implementation-side oracle only): definition dictionaries (dec
 contents, wrongly valued Def, altered Def-expand), several schemas at once.
 -/
 import HedVerif.Model.Validate
+import HedVerif.Props.C02
 
 namespace HedVerif.C01
 open HedVerif HedVerif.Schema HedVerif.Validate
@@ -266,8 +267,9 @@ theorem recanonList_mem (env : Env) :
     | inr h => exact Or.inr (recanonList_mem env ns t i h hi)
 end
 
-theorem defIssuesOf_mem (env : Env) (t : RTag) (h : shortBase env t = defKey) :
-    ∀ (l : List RNode), RNode.tag t ∈ l → tagIssue .defUnmatched t ∈ defIssuesOf env l := by
+theorem defIssuesOf_mem (env : Env) (t : RTag) (h : shortBase env t = defKey) (i : Issue)
+    (hi : i ∈ defContentIssues env t none) :
+    ∀ (l : List RNode), RNode.tag t ∈ l → i ∈ defIssuesOf env l := by
   intro l
   induction l with
   | nil => intro hm; simp at hm
@@ -278,12 +280,34 @@ theorem defIssuesOf_mem (env : Env) (t : RTag) (h : shortBase env t = defKey) :
     | tag t0 =>
       simp only [defIssuesOf, List.mem_append]
       cases hm with
-      | inl e => cases e; exact Or.inl (by simp [h])
+      | inl e => cases e; exact Or.inl (by simpa [h] using hi)
       | inr e => exact Or.inr (ih e)
     | group s ks =>
       simp only [defIssuesOf, List.mem_append]
       cases hm with
       | inl e => cases e
+      | inr e => exact Or.inr (ih e)
+
+theorem defIssuesOf_mem_expand (env : Env) (t : RTag) (s : Nat × Nat) (kids : List RNode)
+    (ht : t ∈ directTags kids) (h : shortBase env t = defExpandKey) (i : Issue)
+    (hi : i ∈ defContentIssues env t (some kids)) :
+    ∀ (l : List RNode), RNode.group s kids ∈ l → i ∈ defIssuesOf env l := by
+  intro l
+  induction l with
+  | nil => intro hm; simp at hm
+  | cons n ns ih =>
+    intro hm
+    simp only [List.mem_cons] at hm
+    cases n with
+    | tag t0 =>
+      simp only [defIssuesOf, List.mem_append]
+      cases hm with
+      | inl e => cases e
+      | inr e => exact Or.inr (ih e)
+    | group s' ks =>
+      simp only [defIssuesOf, List.mem_append, List.mem_flatMap, List.mem_filter]
+      cases hm with
+      | inl e => cases e; exact Or.inl ⟨t, ⟨ht, by simp [h]⟩, hi⟩
       | inr e => exact Or.inr (ih e)
 
 theorem mem_individualPhase {env : Env} {ph : Bool} {len : Nat} {root : List RNode} {g : GV} {t : RTag} {i : Issue}
@@ -493,16 +517,48 @@ theorem injected_bad_value (env : Env) (ph : Bool) (text : Str) (g : GV) (t : RT
     exact Or.inl (mem_individualPhase hg ht hi)
   exact conclude (reach_sem hS hNA hT hM) rfl rfl
 
-/-- undeclared Def (no definitions are declared): a `Def` tag anywhere -/
+/-- undeclared Def: a `Def` tag anywhere whose label is not in the definition dictionary -/
 theorem injected_undeclared_def (env : Env) (ph : Bool) (text : Str) (g : GV) (t : RTag)
     (hS : hasError (S env ph text) = false) (hNA : NA env text = false)
     (hT : hasError (S env ph text ++ T env ph text) = false)
     (hg : g ∈ allGroups text.length (parse env text).root1) (ht : RNode.tag t ∈ g.kids)
-    (hd : shortBase env t = defKey) :
+    (hd : shortBase env t = defKey) (hno : defLookup env (defLabel t) = none) :
     Spec.codeOf .undeclaredDef ∈ codes (errors (validate env ph text)) := by
   have hM : tagIssue .defUnmatched t ∈ M env ph text := by
     simp only [M, semIssues, defPhase, List.mem_append, List.mem_flatMap]
-    exact Or.inr ⟨g, hg, defIssuesOf_mem env t hd g.kids ht⟩
+    exact Or.inr ⟨g, hg, defIssuesOf_mem env t hd _ (by simp [defContentIssues, defExpansion, hno]) g.kids ht⟩
+  exact conclude (reach_sem hS hNA hT hM) rfl rfl
+
+/-- wrongly valued Def: the definition takes a value and none is given, or takes none and one is given -/
+theorem injected_wrong_valued_def (env : Env) (ph : Bool) (text : Str) (g : GV) (t : RTag) (e : DefEntry)
+    (hS : hasError (S env ph text) = false) (hNA : NA env text = false)
+    (hT : hasError (S env ph text ++ T env ph text) = false)
+    (hg : g ∈ allGroups text.length (parse env text).root1) (ht : RNode.tag t ∈ g.kids)
+    (hd : shortBase env t = defKey) (hl : defLookup env (defLabel t) = some e)
+    (hv : (e.takes == (defValue t).isEmpty) = true) :
+    Spec.codeOf .wrongDefValue ∈ codes (errors (validate env ph text)) := by
+  have hM : tagIssue (if e.takes then .defValueMissing else .defValueExtra) t ∈ M env ph text := by
+    simp only [M, semIssues, defPhase, List.mem_append, List.mem_flatMap]
+    exact Or.inr ⟨g, hg, defIssuesOf_mem env t hd _ (by simp [defContentIssues, defExpansion, hl, hv]) g.kids ht⟩
+  cases hk : e.takes with
+  | true => rw [hk] at hM; exact conclude (reach_sem hS hNA hT hM) rfl rfl
+  | false => rw [hk] at hM; exact conclude (reach_sem hS hNA hT hM) rfl rfl
+
+/-- altered Def-expand: the group of a `Def-expand` tag differs (sorted compare) from the tag followed by the
+definition's content with the value substituted -/
+theorem injected_altered_def_expand (env : Env) (ph : Bool) (text : Str) (g : GV) (s : Nat × Nat)
+    (kids rest : List RNode) (t : RTag)
+    (hS : hasError (S env ph text) = false) (hNA : NA env text = false)
+    (hT : hasError (S env ph text ++ T env ph text) = false)
+    (hg : g ∈ allGroups text.length (parse env text).root1) (hk : RNode.group s kids ∈ g.kids)
+    (ht : t ∈ directTags kids) (hd : shortBase env t = defExpandKey)
+    (hx : defExpansion env t = .ok rest)
+    (hne : listEq env (sortedView env kids) (sortedView env (.tag t :: rest)) = false) :
+    Spec.codeOf .alteredDefExpand ∈ codes (errors (validate env ph text)) := by
+  have hM : tagIssue .defExpandInvalid t ∈ M env ph text := by
+    simp only [M, semIssues, defPhase, List.mem_append, List.mem_flatMap]
+    exact Or.inr ⟨g, hg, defIssuesOf_mem_expand env t s kids ht hd _
+      (by simp [defContentIssues, hx, hne]) g.kids hk⟩
   exact conclude (reach_sem hS hNA hT hM) rfl rfl
 
 /-- misplaced tag-group tag: a tag whose base entry has `tagGroup` sits directly in the string (no parentheses) -/
@@ -603,12 +659,1230 @@ theorem injected_repeated (env : Env) (ph : Bool) (text : Str) (w pre post : Lis
   have := conclude (reach_full hB hF) (repeatIssue_code b).2 (repeatIssue_code b).1
   exact ⟨this, this⟩
 
+/-! ### lengths of slash-joined names, bounds of `find` -/
+
+theorem go_ne_nil (cur s : Str) : splitSlash.go cur s ≠ [] := by
+  induction s generalizing cur with
+  | nil => simp [splitSlash.go]
+  | cons c cs ih =>
+    simp only [splitSlash.go]
+    split
+    · simp
+    · exact ih _
+
+theorem joinLen_cons (a : Str) (l : Name) (h : l ≠ []) : joinLen (a :: l) = a.length + 1 + joinLen l := by
+  cases l with
+  | nil => exact absurd rfl h
+  | cons b bs => simp [joinLen]
+
+theorem go_joinLen (cur s : Str) : joinLen (splitSlash.go cur s) = cur.length + s.length := by
+  induction s generalizing cur with
+  | nil => simp [splitSlash.go, joinLen]
+  | cons c cs ih =>
+    simp only [splitSlash.go]
+    split
+    · rw [joinLen_cons _ _ (go_ne_nil _ _), ih]; simp; omega
+    · rw [ih]; simp; omega
+
+theorem splitSlash_joinLen (s : Str) : joinLen (splitSlash s) = s.length := by
+  simpa [splitSlash] using go_joinLen [] s
+
+theorem splitSlash_ne_nil (s : Str) : splitSlash s ≠ [] := go_ne_nil [] s
+
+theorem joinSlash_length (n : Name) : (joinSlash n).length = joinLen n := by
+  induction n with
+  | nil => rfl
+  | cons a l ih =>
+    cases l with
+    | nil => simp [joinSlash, joinLen]
+    | cons b bs => simp only [joinSlash, joinLen, List.length_append, List.length_cons] at ih ⊢; omega
+
+theorem fold_length (s : Str) : (fold s).length = s.length := by simp [fold]
+
+theorem joinLen_fold (n : Name) : joinLen (foldName fold n) = joinLen n := by
+  induction n with
+  | nil => rfl
+  | cons a l ih =>
+    cases l with
+    | nil => simp [foldName, joinLen, fold_length]
+    | cons b bs =>
+      simp only [foldName, List.map_cons, joinLen, fold_length] at ih ⊢
+      omega
+
+theorem head_le_joinLen (l : Name) : (l.head?.getD []).length ≤ joinLen l := by
+  cases l with
+  | nil => simp [joinLen]
+  | cons a l =>
+    cases l with
+    | nil => simp [joinLen]
+    | cons b bs => simp [joinLen]; omega
+
+theorem joinLen_take_drop (l : Name) : ∀ (k : Nat), 1 ≤ k → k < l.length →
+    joinLen l = joinLen (l.take k) + 1 + joinLen (l.drop k) := by
+  induction l with
+  | nil => intro k _ h; simp at h
+  | cons a l ih =>
+    intro k h1 h2
+    obtain ⟨k', rfl⟩ : ∃ k', k = k' + 1 := ⟨k - 1, by omega⟩
+    simp only [List.length_cons] at h2
+    have hl : l ≠ [] := by intro e; subst e; simp at h2
+    by_cases hk : k' = 0
+    · subst hk
+      simp [joinLen_cons a l hl, joinLen]
+    · have := ih k' (by omega) (by omega)
+      have ht : l.take k' ≠ [] := by
+        obtain ⟨b, bs, rfl⟩ := List.exists_cons_of_ne_nil hl
+        obtain ⟨n, rfl⟩ : ∃ n, k' = n + 1 := ⟨k' - 1, by omega⟩
+        simp
+      simp only [List.take_succ_cons, List.drop_succ_cons]
+      rw [joinLen_cons a l hl, joinLen_cons a _ ht, this]
+      omega
+
+theorem last_le_joinLen (l : Name) (x : Str) (h2 : 2 ≤ l.length) (h : l.getLast? = some x) :
+    x.length + 1 ≤ joinLen l := by
+  induction l with
+  | nil => simp at h2
+  | cons a l ih =>
+    cases l with
+    | nil => simp at h2
+    | cons b bs =>
+      rw [joinLen_cons a _ (by simp)]
+      have hl : (b :: bs).getLast? = some x := by simpa [List.getLast?_cons_cons] using h
+      cases bs with
+      | nil => simp at hl; subst hl; simp [joinLen]; omega
+      | cons c cs =>
+        have := ih (by simp) hl
+        omega
+
+theorem walk_bounds (tbl : Table) (w : Name) (e k' : Nat) :
+    ∀ (fuel : Nat) (cur : Option Nat) (k : Nat), walk tbl w fuel cur k = some (e, k') →
+      k ≤ k' ∧ (k ≤ w.length → k' ≤ w.length) ∧ (cur = none → k + 1 ≤ k') := by
+  intro fuel
+  induction fuel with
+  | zero =>
+    intro cur k h
+    cases cur with
+    | none => simp [walk] at h
+    | some c => simp [walk] at h; obtain ⟨_, rfl⟩ := h; exact ⟨Nat.le_refl _, id, by simp⟩
+  | succ f ih =>
+    intro cur k h
+    simp only [walk] at h
+    split at h
+    · cases cur with
+      | none => simp at h
+      | some c => simp at h; obtain ⟨_, rfl⟩ := h; exact ⟨Nat.le_refl _, id, by simp⟩
+    · split at h
+      · have := ih _ _ h
+        exact ⟨by omega, fun _ => this.2.1 (by omega), fun _ => by omega⟩
+      · cases cur with
+        | none => simp at h
+        | some c => simp at h; obtain ⟨_, rfl⟩ := h; exact ⟨Nat.le_refl _, id, by simp⟩
+
+theorem badTerm_bounds (tbl : Table) : ∀ (l : Name) (pos a b x : Nat), badTerm tbl pos l = some (a, b, x) →
+    pos ≤ a ∧ a ≤ b ∧ b ≤ pos + joinLen l := by
+  intro l
+  induction l with
+  | nil => intro pos a b x h; simp [badTerm] at h
+  | cons c cs ih =>
+    intro pos a b x h
+    simp only [badTerm] at h
+    split at h
+    · simp at h
+      obtain ⟨rfl, rfl, _⟩ := h
+      have := head_le_joinLen (c :: cs)
+      simp at this
+      omega
+    · cases cs with
+      | nil => simp [badTerm] at h
+      | cons d ds =>
+        have := ih _ _ _ _ h
+        rw [joinLen_cons c _ (by simp)]
+        omega
+
+theorem drop_lt_of_nonempty {α} (l : List α) (k : Nat) (h : (l.drop k).isEmpty = false) : k < l.length :=
+  Nat.lt_of_not_le fun hc => by simp [List.drop_eq_nil_of_le hc] at h
+
+/-- what `findComps` can answer, with the bounds of each answer -/
+theorem findComps_bounds (v : Vocab) (comps : Name) :
+    match findComps v fold comps with
+    | .found _ rem => rem.length ≤ joinLen comps ∨ (rem = ['/', '#'] ∧ 2 ≤ joinLen comps)
+    | .noValidTag stop => stop ≤ joinLen comps
+    | .invalidParent a b _ => a ≤ b ∧ b ≤ joinLen comps := by
+  unfold findComps
+  simp only []
+  cases hg : v.table.get (foldName fold comps) with
+  | some e =>
+    simp only []
+    split
+    · rename_i hc
+      simp only [Bool.and_eq_true, beq_iff_eq, decide_eq_true_eq] at hc
+      have := last_le_joinLen (foldName fold comps) ['#'] hc.2 hc.1
+      rw [joinLen_fold] at this
+      simp at this
+      exact Or.inr ⟨rfl, by omega⟩
+    · exact Or.inl (by simp)
+  | none =>
+    simp only []
+    cases hw : walk v.table (foldName fold comps) (foldName fold comps).length none 0 with
+    | none => simp only []; exact head_le_joinLen comps
+    | some p =>
+      obtain ⟨e, k⟩ := p
+      simp only []
+      have hk := (walk_bounds _ _ _ _ _ _ _ hw).2.2 rfl
+      cases hd : (comps.drop k).isEmpty with
+      | true =>
+        simp only [if_true]
+        cases v.valueChild fold e with
+        | some ch => simp
+        | none =>
+          simp only []
+          have : (foldName fold comps).drop k = [] := by
+            have : comps.drop k = [] := by simpa using hd
+            simp [foldName, ← List.map_drop, this]
+          simp [this, badTerm]
+      | false =>
+        have hlt := drop_lt_of_nonempty comps k hd
+        have hj := joinLen_take_drop comps k (by omega) hlt
+        simp only [Bool.false_eq_true, if_false]
+        cases v.valueChild fold e with
+        | some ch => simp only []; exact Or.inl (by simp [joinSlash_length]; omega)
+        | none =>
+          simp only []
+          cases hb : badTerm v.table (joinLen (comps.take k) + 1) ((foldName fold comps).drop k) with
+          | none => simp only []; exact Or.inl (by simp [joinSlash_length]; omega)
+          | some x =>
+            obtain ⟨a, b, y⟩ := x
+            simp only []
+            have := badTerm_bounds _ _ _ _ _ _ hb
+            have hf : joinLen ((foldName fold comps).drop k) = joinLen (comps.drop k) := by
+              have : (foldName fold comps).drop k = foldName fold (comps.drop k) := by simp [foldName, List.map_drop]
+              rw [this, joinLen_fold]
+            omega
+
+theorem find_bounds (v : Vocab) (clean : Str) :
+    match find v fold clean with
+    | .found _ rem => rem.length ≤ clean.length
+    | .noValidTag stop => stop ≤ clean.length
+    | .invalidParent a b _ => a ≤ b ∧ b ≤ clean.length := by
+  have h := findComps_bounds v (splitSlash clean)
+  rw [splitSlash_joinLen] at h
+  unfold find
+  cases hf : findComps v fold (splitSlash clean) with
+  | found i rem =>
+    rw [hf] at h
+    simp only [] at h ⊢
+    rcases h with h | ⟨rfl, h⟩
+    · exact h
+    · simpa using h
+  | noValidTag stop => rw [hf] at h; exact h
+  | invalidParent a b x => rw [hf] at h; exact h
+
+/-! ### every tag of the parsed tree lies in the text; its indices lie in the tag -/
+
+/-- the location facts of a resolved tag -/
+structure TagOK (text : Str) (t : RTag) : Prop where
+  lt : t.span.1 < t.span.2
+  le : t.span.2 ≤ text.length
+  org : t.org.length = t.span.2 - t.span.1
+  ns : t.ns.length ≤ t.org.length
+  ext : t.extVal.length ≤ t.org.length
+  ext0 : t.entry = none → t.extVal = []
+
+/-- an issue's tag-relative index pair lies inside the tag it names, and that tag inside the text -/
+def IssueOK (text : Str) (i : Issue) : Prop :=
+  ∀ s e a b, i.span = some (s, e) → i.sub = some (a, b) → a ≤ b ∧ b ≤ e - s ∧ s ≤ e ∧ e ≤ text.length
+
+theorem issueOK_nosub {text : Str} {i : Issue} (h : i.sub = none) : IssueOK text i := by
+  intro s e a b _ hs; rw [h] at hs; cases hs
+
+theorem issueOK_nospan {text : Str} {i : Issue} (h : i.span = none) : IssueOK text i := by
+  intro s e a b hs _; rw [h] at hs; cases hs
+
+theorem issueOK_of {text : Str} {t : RTag} (ht : TagOK text t) {i : Issue} {a b : Nat}
+    (hs : i.span = some t.span) (hsub : i.sub = some (a, b)) (hab : a ≤ b) (hb : b ≤ t.org.length) :
+    IssueOK text i := by
+  intro s e a' b' hs' hsub'
+  have h1 : t.span = (s, e) := by rw [hs] at hs'; exact Option.some.inj hs'
+  have h2 : (a, b) = (a', b') := by rw [hsub] at hsub'; exact Option.some.inj hsub'
+  cases h2
+  have h3 := ht.lt; have h4 := ht.le; have h5 := ht.org
+  rw [h1] at h3 h4 h5
+  simp only at h3 h4 h5
+  exact ⟨hab, by omega, by omega, h4⟩
+
+theorem namespaceOf_le (org : Str) : (namespaceOf org).length ≤ org.length := by
+  unfold namespaceOf
+  split
+  · simp
+  · split
+    · split
+      · simp
+      · simp only [List.length_take]; omega
+    · simp only [List.length_take]; omega
+
+theorem orgBase_le (t : RTag) : (orgBase t).length ≤ t.org.length := by
+  unfold orgBase
+  split
+  · split
+    · exact Nat.le_refl _
+    · split <;> simp
+  · exact Nat.le_refl _
+
+/-- `org_base_tag`, the slash and the extension fit in the tag text -/
+theorem orgBase_ext {text : Str} {t : RTag} (ht : TagOK text t) (hne : (extension t) ≠ []) :
+    (orgBase t).length + 1 + (extension t).length ≤ t.org.length := by
+  have hx : t.extVal ≠ [] := by intro e; apply hne; simp [extension, e]
+  have he : t.entry ≠ none := fun e => hx (ht.ext0 e)
+  have hl := ht.ext
+  have hpos : 0 < t.extVal.length := by
+    cases h : t.extVal with
+    | nil => exact absurd h hx
+    | cons _ _ => simp
+  unfold orgBase extension
+  cases hen : t.entry with
+  | none => exact absurd hen he
+  | some e =>
+    simp only [List.length_drop]
+    have : t.extVal.isEmpty = false := by simpa using hx
+    simp only [this, Bool.false_eq_true, if_false]
+    split
+    · simp; omega
+    · simp; omega
+
+theorem slice_len (s : Str) (a b : Nat) (hb : b ≤ s.length) : (Tree.slice s a b).length = b - a := by
+  simp [Tree.slice]; omega
+
+theorem canon_eq (env : Env) (t : RTag) (hn : t.entry = none) (hns : (t.ns != env.ns) = false) :
+    canon env t = match find env.vocab fold (t.org.drop t.ns.length) with
+      | .found i rem => ({ t with entry := some i, extVal := if rem.isEmpty then t.extVal else rem }, [])
+      | .noValidTag stop => ({ t with entry := none }, [subIssue .noValidTag t t.ns.length (t.ns.length + stop)])
+      | .invalidParent a b _ =>
+        ({ t with entry := none }, [subIssue .invalidParent t (t.ns.length + a) (t.ns.length + b)]) := by
+  simp only [canon, hns, strOf, hn, Bool.false_eq_true, if_false]
+  cases find env.vocab fold (t.org.drop t.ns.length) <;> rfl
+
+/-- `_calculate_to_canonical_forms` on a not yet identified tag keeps the location facts, and its issues
+(`NO_VALID_TAG_FOUND`, `INVALID_PARENT_NODE`, `HED_LIBRARY_UNMATCHED`) point inside the tag -/
+theorem canon_ok (env : Env) {text : Str} {t : RTag} (ht : TagOK text t) (hn : t.entry = none) :
+    TagOK text (canon env t).1 ∧ ∀ i ∈ (canon env t).2, IssueOK text i := by
+  have hx := ht.ext0 hn
+  have hns := ht.ns
+  cases hc : (t.ns != env.ns) with
+  | true =>
+    simp only [canon, hc, if_true]
+    refine ⟨⟨ht.lt, ht.le, ht.org, ht.ns, ht.ext, fun _ => hx⟩, ?_⟩
+    intro i hi
+    simp only [List.mem_singleton] at hi
+    subst hi
+    exact issueOK_nosub rfl
+  | false =>
+    rw [canon_eq env t hn hc]
+    have hb := find_bounds env.vocab (t.org.drop t.ns.length)
+    cases hf : find env.vocab fold (t.org.drop t.ns.length) with
+    | found i rem =>
+      rw [hf] at hb
+      simp only [List.length_drop] at hb
+      simp only []
+      refine ⟨⟨ht.lt, ht.le, ht.org, ht.ns, ?_, fun h => by simp at h⟩, by simp⟩
+      show (if rem.isEmpty then t.extVal else rem).length ≤ t.org.length
+      split
+      · exact ht.ext
+      · omega
+    | noValidTag stop =>
+      rw [hf] at hb
+      simp only [List.length_drop] at hb
+      simp only []
+      refine ⟨⟨ht.lt, ht.le, ht.org, ht.ns, ht.ext, fun _ => hx⟩, ?_⟩
+      intro i hi
+      simp only [List.mem_singleton] at hi
+      subst hi
+      exact issueOK_of ht rfl rfl (by omega) (by omega)
+    | invalidParent a b x =>
+      rw [hf] at hb
+      simp only [List.length_drop] at hb
+      simp only []
+      refine ⟨⟨ht.lt, ht.le, ht.org, ht.ns, ht.ext, fun _ => hx⟩, ?_⟩
+      intro i hi
+      simp only [List.mem_singleton] at hi
+      subst hi
+      exact issueOK_of ht rfl rfl (by omega) (by omega)
+
+theorem mkTag_ok (env : Env) (text : Str) (a b : Nat) (hab : a < b) (hb : b ≤ text.length) :
+    TagOK text (mkTag env text a b) := by
+  unfold mkTag
+  exact (canon_ok env (t := ⟨(a, b), Tree.slice text a b, namespaceOf (Tree.slice text a b), none, []⟩)
+    ⟨hab, hb, slice_len text a b hb, namespaceOf_le _, by simp, fun _ => rfl⟩ rfl).1
+
+mutual
+theorem resolveNode_ok (env : Env) (text : Str) : ∀ (d : Nat) (n : Node), NodeNest text d n →
+    ∀ t ∈ tagsNode (resolveNode env text n), TagOK text t
+  | d, .tag a b, h, t, ht => by
+    simp only [resolveNode, tagsNode, List.mem_singleton] at ht
+    subst ht
+    simp only [NodeNest] at h
+    exact mkTag_ok env text a b h.2.2.1 h.2.2.2
+  | d, .group a b kids, h, t, ht => by
+    simp only [resolveNode, tagsNode] at ht
+    simp only [NodeNest] at h
+    exact resolveList_ok env text (d + 1) kids h.2.2.2.2.2.2 t ht
+theorem resolveList_ok (env : Env) (text : Str) : ∀ (d : Nat) (l : List Node), ListNest text d l →
+    ∀ t ∈ tagsList (resolveList env text l), TagOK text t
+  | d, [], _, t, ht => by simp [resolveList, tagsList] at ht
+  | d, n :: ns, h, t, ht => by
+    simp only [resolveList, tagsList, List.mem_append] at ht
+    simp only [ListNest] at h
+    cases ht with
+    | inl h1 => exact resolveNode_ok env text d n h.1 t h1
+    | inr h1 => exact resolveList_ok env text d ns h.2 t h1
+end
+
+/-- every tag of the tree built by `HedString.__init__` lies in the text (C02 `nesting_depth`) -/
+theorem root0_ok (env : Env) (text : Str) : ∀ t ∈ tagsList (parse env text).root0, TagOK text t := by
+  intro t ht
+  simp only [parse] at ht
+  by_cases hb : balanced text
+  · obtain ⟨r, _, hc, hn⟩ := C02.nesting_depth text hb
+    rw [hc] at ht
+    exact resolveList_ok env text 0 r hn t ht
+  · rw [C02.unbalanced_empty text hb] at ht
+    simp [resolveList, tagsList] at ht
+
+mutual
+theorem recanonNode_tags (env : Env) : ∀ (n : RNode),
+    tagsNode (recanonNode env n).1 = (tagsNode n).map (fun t => (canon env t).1)
+  | .tag t => by simp [recanonNode, tagsNode]
+  | .group s kids => by simp [recanonNode, tagsNode, recanonList_tags env kids]
+theorem recanonList_tags (env : Env) : ∀ (l : List RNode),
+    tagsList (recanonList env l).1 = (tagsList l).map (fun t => (canon env t).1)
+  | [] => by simp [recanonList, tagsList]
+  | n :: ns => by simp [recanonList, tagsList, recanonNode_tags env n, recanonList_tags env ns]
+end
+
+mutual
+theorem recanonNode_issues (env : Env) : ∀ (n : RNode),
+    (recanonNode env n).2 = (tagsNode n).flatMap (fun t => (canon env t).2)
+  | .tag t => by simp [recanonNode, tagsNode]
+  | .group s kids => by simp [recanonNode, tagsNode, recanonList_issues env kids]
+theorem recanonList_issues (env : Env) : ∀ (l : List RNode),
+    (recanonList env l).2 = (tagsList l).flatMap (fun t => (canon env t).2)
+  | [] => by simp [recanonList, tagsList]
+  | n :: ns => by simp [recanonList, tagsList, recanonNode_issues env n, recanonList_issues env ns]
+end
+
+/-- Re-resolving an already identified tag from its short form (`str(tag)`) gives the same entry and
+remainder and no issue — C03's `short_long_fixpoint`, here as a hypothesis on the text (the driver reports it
+for every case). -/
+def LookupStable (env : Env) (text : Str) : Prop :=
+  ∀ t ∈ tagsList (parse env text).root0, t.entry.isSome = true → canon env t = (t, [])
+
+theorem root1_ok (env : Env) (text : Str) (hst : LookupStable env text) :
+    ∀ t ∈ tagsList (parse env text).root1, TagOK text t := by
+  intro t ht
+  simp only [parse, recanonList_tags] at ht
+  obtain ⟨t0, h0, rfl⟩ := List.mem_map.mp ht
+  have h0' : t0 ∈ tagsList (parse env text).root0 := by simpa [parse] using h0
+  have ok0 := root0_ok env text t0 h0'
+  cases he : t0.entry with
+  | none => exact (canon_ok env ok0 he).1
+  | some e => rw [hst t0 h0' (by simp [he])]; exact ok0
+
+theorem lookup_ok (env : Env) (text : Str) (hst : LookupStable env text) :
+    ∀ i ∈ (parse env text).lookup, IssueOK text i := by
+  intro i hi
+  simp only [parse, recanonList_issues, List.mem_flatMap] at hi
+  obtain ⟨t0, h0, hi⟩ := hi
+  have h0' : t0 ∈ tagsList (parse env text).root0 := by simpa [parse] using h0
+  have ok0 := root0_ok env text t0 h0'
+  cases he : t0.entry with
+  | none => exact (canon_ok env ok0 he).2 i hi
+  | some e => rw [hst t0 h0' (by simp [he])] at hi; simp at hi
+
+/-! #### the index pairs of each rule -/
+
+theorem takeWhile_length_le {α} (p : α → Bool) (l : List α) : (l.takeWhile p).length ≤ l.length := by
+  induction l with
+  | nil => simp
+  | cons a l ih =>
+    simp only [List.takeWhile_cons]
+    split
+    · simp only [List.length_cons]; omega
+    · simp
+
+theorem slashMatches_bounds : ∀ (s : Str) (i skip : Nat), skip ≤ s.length →
+    ∀ m ∈ slashMatches i skip s, m.1 ≤ m.2 ∧ m.2 ≤ i + s.length := by
+  intro s
+  induction s with
+  | nil => intro i skip _ m hm; cases skip <;> simp [slashMatches] at hm
+  | cons c cs ih =>
+    intro i skip hs m hm
+    cases skip with
+    | succ k =>
+      simp only [slashMatches] at hm
+      have := ih (i + 1) k (by simpa using hs) m hm
+      simp only [List.length_cons]; omega
+    | zero =>
+      simp only [slashMatches] at hm
+      have hrun : ((c :: cs).takeWhile isSlashRun).length ≤ cs.length + 1 := by
+        simpa using takeWhile_length_le isSlashRun (c :: cs)
+      simp only [List.length_cons]
+      split at hm
+      · simp only [List.mem_cons] at hm
+        cases hm with
+        | inl h => subst h; simp only; omega
+        | inr h => have := ih (i + 1) _ (by omega) m h; omega
+      · split at hm
+        · simp only [List.mem_cons] at hm
+          cases hm with
+          | inl h => subst h; simp only; omega
+          | inr h => have := ih (i + 1) 0 (by omega) m h; omega
+        · have := ih (i + 1) 0 (by omega) m hm; omega
+
+theorem slashIssues_ok {text : Str} {t : RTag} (ht : TagOK text t) : ∀ i ∈ slashIssues t, IssueOK text i := by
+  intro i hi
+  simp only [slashIssues, List.mem_map] at hi
+  obtain ⟨m, hm, rfl⟩ := hi
+  have := slashMatches_bounds t.org 0 0 (by omega) m hm
+  exact issueOK_of ht rfl rfl this.1 (by omega)
+
+theorem invalidCharsFrom_ok {text : Str} {t : RTag} (ht : TagOK text t) (cd : CharData) (allowed : List Char)
+    (ov : Option Str) : ∀ (s : Str) (start : Nat), start + s.length ≤ t.org.length →
+    ∀ i ∈ invalidCharsFrom cd allowed t ov start s, IssueOK text i := by
+  intro s
+  induction s with
+  | nil => intro _ _ i hi; simp [invalidCharsFrom] at hi
+  | cons c cs ih =>
+    intro start hs i hi
+    simp only [invalidCharsFrom, List.mem_append, List.length_cons] at hi hs
+    cases hi with
+    | inl h =>
+      split at h
+      · simp at h
+      · simp only [List.mem_singleton] at h; subst h
+        exact issueOK_of ht rfl rfl (by omega) (by omega)
+    | inr h => exact ih (start + 1) (by omega) i h
+
+theorem placeholderFrom_ok {text : Str} {t : RTag} (ht : TagOK text t) (start : Nat) :
+    ∀ (s : Str) (n : Nat), start + n + s.length ≤ t.org.length →
+    ∀ i ∈ placeholderFrom t start n s, IssueOK text i := by
+  intro s
+  induction s with
+  | nil => intro _ _ i hi; simp [placeholderFrom] at hi
+  | cons c cs ih =>
+    intro n hs i hi
+    simp only [placeholderFrom, List.mem_append, List.length_cons] at hi hs
+    cases hi with
+    | inl h =>
+      split at h
+      · simp only [List.mem_singleton] at h; subst h
+        exact issueOK_of ht rfl rfl (by omega) (by omega)
+      · simp at h
+    | inr h => exact ih (n + 1) (by omega) i h
+
+theorem problemCharsFrom_bounds (ccs : List CharClass) : ∀ (s : Str) (n : Nat),
+    ∀ p ∈ problemCharsFrom ccs n s, n ≤ p.1 ∧ p.1 < n + s.length := by
+  intro s
+  induction s with
+  | nil => intro _ p hp; simp [problemCharsFrom] at hp
+  | cons c cs ih =>
+    intro n p hp
+    simp only [problemCharsFrom, List.mem_append, List.length_cons] at hp ⊢
+    cases hp with
+    | inl h =>
+      split at h
+      · simp at h
+      · simp only [List.mem_singleton] at h; subst h; simp only; omega
+    | inr h => have := ih (n + 1) p h; omega
+
+theorem problemChars_bounds (cls sv : Str) : ∀ p ∈ problemChars cls sv, p.1 < sv.length := by
+  intro p hp
+  unfold problemChars at hp
+  split at hp
+  · split at hp
+    · simp at hp
+    · have := problemCharsFrom_bounds _ sv 0 p hp; omega
+  · simp at hp
+
+theorem findSubFrom_bounds (sub : Str) : ∀ (s : Str) (i j : Nat), findSubFrom sub i s = some j →
+    i ≤ j ∧ j + sub.length ≤ i + s.length := by
+  intro s
+  induction s with
+  | nil =>
+    intro i j h
+    simp only [findSubFrom] at h
+    split at h
+    · rename_i he; simp at h; subst h
+      have : sub = [] := by simpa using he
+      simp [this]
+    · simp at h
+  | cons c cs ih =>
+    intro i j h
+    simp only [findSubFrom] at h
+    split at h
+    · rename_i hp
+      simp at h; subst h
+      have := (List.isPrefixOf_iff_prefix.mp hp).length_le
+      simp only [List.length_cons] at this ⊢; omega
+    · have := ih (i + 1) j h
+      simp only [List.length_cons]; omega
+
+theorem extension_ne_of_len {t : RTag} {sv : Str} (h : sv.length ≤ (extension t).length) (hne : sv ≠ []) :
+    extension t ≠ [] := by
+  intro e
+  rw [e] at h
+  cases sv with
+  | nil => exact hne rfl
+  | cons _ _ => simp at h
+
+theorem valueClassIssues_ok {text : Str} {t : RTag} (ht : TagOK text t) (env : Env) (sv : Str)
+    (hsv : sv.length ≤ (extension t).length) : ∀ i ∈ valueClassIssues env t sv, IssueOK text i := by
+  intro i hi
+  unfold valueClassIssues at hi
+  simp only [] at hi
+  split at hi
+  · simp at hi
+  · split at hi
+    · simp at hi
+    · split at hi
+      · simp at hi
+      · simp only [List.mem_flatMap] at hi
+        obtain ⟨c, _, hi⟩ := hi
+        split at hi
+        · simp only [List.mem_singleton] at hi; subst hi
+          exact issueOK_of ht rfl rfl (Nat.zero_le _) (Nat.le_refl _)
+        · simp only [List.mem_map] at hi
+          obtain ⟨p, hp, rfl⟩ := hi
+          have hk := problemChars_bounds c sv p hp
+          have hne : sv ≠ [] := by intro e; rw [e] at hk; simp at hk
+          have hob := orgBase_ext ht (extension_ne_of_len hsv hne)
+          obtain ⟨k, ch⟩ := p
+          simp only at hk ⊢
+          have hstart : k + (match findSub (extension t) sv with
+              | some j => j + (orgBase t).length + 1
+              | none => (orgBase t).length) + 1 ≤ t.org.length := by
+            cases hf : findSub (extension t) sv with
+            | none => simp only; omega
+            | some j =>
+              have := findSubFrom_bounds sv (extension t) 0 j hf
+              simp only; omega
+          split
+          · exact issueOK_of ht rfl rfl (by omega) hstart
+          · exact issueOK_of ht rfl rfl (by omega) hstart
+
+theorem rpartitionBlank_le (s : Str) :
+    (Units.rpartitionBlank s).1.length ≤ s.length ∧ (Units.rpartitionBlank s).2.length ≤ s.length := by
+  unfold Units.rpartitionBlank
+  simp only []
+  split
+  · simp
+  · simp only [List.length_reverse, List.length_drop, List.length_take]; omega
+
+theorem go_value (mods : List Units.Modifier) (fold' : Str → Str) (value units : Str) :
+    ∀ (cs : List Units.UnitClass) (ci : Nat) (m : Units.Match),
+      Units.unitsPortion.go mods fold' value units ci cs = some m → m.value = value ∨ m.value = units := by
+  intro cs
+  induction cs with
+  | nil => intro ci m h; simp [Units.unitsPortion.go] at h
+  | cons c cs ih =>
+    intro ci m h
+    simp only [Units.unitsPortion.go] at h
+    repeat' split at h
+    all_goals first
+      | exact ih _ _ h
+      | (simp only [Option.some.injEq] at h; subst h; simp)
+
+theorem stripped_le (mods : List Units.Modifier) (classes : List Units.UnitClass) (text : Str) :
+    (Units.stripped mods classes fold text).1.length ≤ text.length := by
+  unfold Units.stripped
+  cases hu : Units.unitsPortion mods classes fold text with
+  | none => simp
+  | some m =>
+    simp only []
+    split
+    · simp
+    · unfold Units.unitsPortion at hu
+      have hr := rpartitionBlank_le text
+      simp only [] at hu
+      split at hu
+      · simp at hu
+      · rcases go_value _ _ _ _ _ _ _ hu with h | h <;> simp only [h] <;> omega
+
+theorem valueText_le (env : Env) (t : RTag) (text : Str) (h : text.length ≤ (extension t).length) :
+    (valueText env t text).length ≤ (extension t).length := by
+  have hs : (strippedText env t text).length ≤ (extension t).length := by
+    unfold strippedText
+    simp only []
+    split
+    · have := stripped_le env.mods (tagUnitClasses env t) text; omega
+    · exact Nat.le_refl _
+  unfold valueText
+  simp only []
+  split
+  · have := takeWhile_length_le (· != ' ') (strippedText env t text); omega
+  · exact hs
+
+theorem validateUnits_ok {text : Str} {t : RTag} (ht : TagOK text t) (env : Env) (txt : Str)
+    (h : txt.length ≤ (extension t).length) : ∀ i ∈ validateUnits env t txt, IssueOK text i := by
+  intro i hi
+  unfold validateUnits at hi
+  split at hi
+  · simp at hi
+  · split at hi
+    · simp only [unitIssues, List.mem_append] at hi
+      cases hi with
+      | inl h1 => exact valueClassIssues_ok ht env _ (valueText_le env t txt h) i h1
+      | inr h1 =>
+        split at h1
+        · simp at h1
+        · simp only [List.mem_singleton] at h1; subst h1; exact issueOK_nosub rfl
+    · split at hi
+      · exact valueClassIssues_ok ht env _ h i hi
+      · split at hi
+        · rename_i hne
+          have hne' : extension t ≠ [] := by simpa using hne
+          have := orgBase_ext ht hne'
+          exact invalidCharsFrom_ok ht _ _ _ txt _ (by omega) i hi
+        · simp at hi
+
+theorem tagCharIssues_ok {text : Str} {t : RTag} (ht : TagOK text t) (env : Env) (ph : Bool) :
+    ∀ i ∈ tagCharIssues env ph t, IssueOK text i := by
+  intro i hi
+  simp only [tagCharIssues, List.mem_append] at hi
+  cases hi with
+  | inl h =>
+    split at h
+    · simp only [List.mem_singleton] at h; subst h; exact issueOK_nosub rfl
+    · simp at h
+  | inr h => exact invalidCharsFrom_ok ht _ _ _ _ 0 (by have := orgBase_le t; omega) i h
+
+theorem individualIssues_ok {text : Str} {t : RTag} (ht : TagOK text t) (env : Env) (ph isDef : Bool) :
+    ∀ i ∈ individualIssues env ph isDef t, IssueOK text i := by
+  intro i hi
+  simp only [individualIssues, List.mem_append] at hi
+  rcases hi with (((h | h) | h) | h) | h
+  · unfold existsIssues at h
+    simp only [] at h
+    split at h
+    · simp at h
+    · split at h
+      · simp only [List.mem_singleton] at h; subst h; exact issueOK_nosub rfl
+      · simp only [List.mem_singleton] at h; subst h
+        exact issueOK_of ht rfl rfl (orgBase_le t) (Nat.le_refl _)
+  · split at h
+    · unfold placeholderIssues at h
+      split at h
+      · simp at h
+      · by_cases hx : extension t = []
+        · rw [hx] at h; simp [placeholderFrom] at h
+        · have := orgBase_ext ht hx
+          exact placeholderFrom_ok ht _ _ 0 (by omega) i h
+    · simp at h
+  · split at h
+    · simp only [List.mem_singleton] at h; subst h; exact issueOK_nosub rfl
+    · simp at h
+  · split at h
+    · simp only [List.mem_singleton] at h; subst h; exact issueOK_nosub rfl
+    · simp at h
+  · unfold styleIssues at h
+    split at h
+    · simp only [List.mem_singleton] at h; subst h; exact issueOK_nosub rfl
+    · simp at h
+
+theorem findCharAt_bounds (ch : Char) : ∀ (s : Str) (i j : Nat), findCharAt ch i s = some j → j < i + s.length := by
+  intro s
+  induction s with
+  | nil => intro i j h; simp [findCharAt] at h
+  | cons c cs ih =>
+    intro i j h
+    simp only [findCharAt] at h
+    split at h
+    · simp at h; subst h; simp
+    · have := ih (i + 1) j h; simp only [List.length_cons]; omega
+
+theorem findCharFrom_lt (text : Str) (ch : Char) (start j : Nat) (h : findCharFrom text ch start = some j) :
+    j < text.length := by
+  unfold findCharFrom at h
+  have := findCharAt_bounds ch _ _ _ h
+  simp only [List.length_drop] at this
+  by_cases hs : start ≤ text.length
+  · omega
+  · have : text.drop start = [] := List.drop_eq_nil_of_le (by omega)
+    rw [this] at h; simp [findCharAt] at h
+
+theorem relocate_bounds (text : Str) : ∀ (es : List (Nat × Char)) (start : Nat),
+    ∀ r ∈ relocate text start es, r.2.1 ≤ r.2.2 ∧ r.2.2 ≤ text.length := by
+  intro es
+  induction es with
+  | nil => intro _ r hr; simp [relocate] at hr
+  | cons e es ih =>
+    intro start r hr
+    obtain ⟨k, ch⟩ := e
+    simp only [relocate] at hr
+    split at hr
+    · rename_i j hj
+      simp only [List.mem_cons] at hr
+      cases hr with
+      | inl h => subst h; have := findCharFrom_lt _ _ _ _ hj; simp only; omega
+      | inr h => exact ih _ r h
+    · simp only [List.mem_cons] at hr
+      cases hr with
+      | inl h => subst h; simp
+      | inr h => exact ih _ r h
+
+/-- the value of a Def tag checked inside its definition (`report_as`): in range once the characters are
+located in the Def tag itself (`defCharRelocate`) -/
+theorem valueClassIssuesAs_ok {text : Str} {rep : RTag} (ht : TagOK text rep) (env : Env) (orig : RTag) (sv : Str)
+    (hv : env.var.defCharRelocate = true) : ∀ i ∈ valueClassIssuesAs env orig rep sv, IssueOK text i := by
+  intro i hi
+  unfold valueClassIssuesAs at hi
+  simp only [hv, if_true] at hi
+  split at hi
+  · simp at hi
+  · split at hi
+    · simp at hi
+    · split at hi
+      · simp at hi
+      · simp only [List.mem_flatMap] at hi
+        obtain ⟨c, _, hi⟩ := hi
+        split at hi
+        · simp only [List.mem_singleton] at hi; subst hi
+          exact issueOK_of ht rfl rfl (Nat.zero_le _) (Nat.le_refl _)
+        · simp only [List.mem_map] at hi
+          obtain ⟨r, hr, rfl⟩ := hi
+          have := relocate_bounds _ _ _ r hr
+          obtain ⟨ch, a, b⟩ := r
+          simp only at this ⊢
+          split
+          · exact issueOK_of ht rfl rfl this.1 this.2
+          · exact issueOK_of ht rfl rfl this.1 this.2
+
+theorem withErrorCode_ok {text : Str} (code : Str) (l : List Issue) (h : ∀ i ∈ l, IssueOK text i) :
+    ∀ i ∈ withErrorCode code l, IssueOK text i := by
+  intro i hi
+  unfold withErrorCode at hi
+  split at hi
+  · simp at hi
+  · rename_i j js
+    split at hi
+    · exact h i hi
+    · simp only [List.mem_append, List.mem_singleton] at hi
+      cases hi with
+      | inl h1 => exact h i h1
+      | inr h1 =>
+        subst h1
+        have := h j (by simp)
+        intro s e a b hs hsub
+        exact this s e a b hs hsub
+
+theorem defUnits_ok {text : Str} {rep : RTag} (ht : TagOK text rep) (env : Env) (p : RTag) (txt code : Str)
+    (hv : env.var.defCharRelocate = true) : ∀ i ∈ defUnits env p rep txt code, IssueOK text i := by
+  unfold defUnits
+  split
+  · simp
+  · split
+    · apply withErrorCode_ok
+      intro i hi
+      simp only [List.mem_append] at hi
+      cases hi with
+      | inl h => exact valueClassIssuesAs_ok ht env p _ hv i h
+      | inr h =>
+        split at h
+        · simp at h
+        · simp only [List.mem_singleton] at h; subst h; exact issueOK_nosub rfl
+    · split
+      · exact valueClassIssuesAs_ok ht env p _ hv
+      · simp
+
+theorem defValueIssues_ok {text : Str} {t : RTag} (ht : TagOK text t) (env : Env)
+    (hd : env.var.defCharRelocate = true ∨ env.defs = []) : ∀ i ∈ defValueIssues env t, IssueOK text i := by
+  intro i hi
+  unfold defValueIssues at hi
+  cases hd with
+  | inr h0 => simp [defLookup, h0] at hi
+  | inl hv =>
+    split at hi
+    · simp at hi
+    · simp only [List.mem_append] at hi
+      cases hi with
+      | inl h =>
+        refine valueClassIssues_ok ht env _ ?_ i h
+        exact takeWhile_length_le _ _
+      | inr h =>
+        split at h
+        · simp at h
+        · exact defUnits_ok ht env _ _ _ hv i h
+
+theorem tagSemIssues_ok {text : Str} {t : RTag} (ht : TagOK text t) (env : Env) (ph isDef : Bool)
+    (hd : env.var.defCharRelocate = true ∨ env.defs = []) : ∀ i ∈ tagSemIssues env ph isDef t, IssueOK text i := by
+  intro i hi
+  simp only [tagSemIssues, List.mem_append] at hi
+  rcases hi with (h | h) | h
+  · split at h
+    · simp only [List.mem_singleton] at h; subst h; exact issueOK_nosub rfl
+    · simp at h
+  · exact individualIssues_ok ht env ph isDef i h
+  · split at h
+    · exact defValueIssues_ok ht env hd i h
+    · split at h
+      · exact validateUnits_ok ht env _ (by simp only [List.length_take]; omega) i h
+      · split at h
+        · exact validateUnits_ok ht env _ (Nat.le_refl _) i h
+        · simp at h
+
+/-! #### issues without an index pair -/
+
+theorem tagIssue_sub (k : Kind) (t : RTag) : (tagIssue k t).sub = none := rfl
+
+theorem required_nosub (env : Env) (tags : List RTag) : ∀ i ∈ requiredIssues env tags, i.sub = none := by
+  intro i hi
+  simp only [requiredIssues, List.mem_flatMap] at hi
+  obtain ⟨p, _, hi⟩ := hi
+  split at hi
+  · simp only [List.mem_singleton] at hi; subst hi; rfl
+  · simp at hi
+
+theorem unique_nosub (env : Env) (tags : List RTag) : ∀ i ∈ uniqueIssues env tags, i.sub = none := by
+  intro i hi
+  simp only [uniqueIssues, List.mem_flatMap] at hi
+  obtain ⟨p, _, hi⟩ := hi
+  split at hi
+  · simp only [List.mem_singleton] at hi; subst hi; rfl
+  · simp at hi
+
+theorem level_nosub (env : Env) (g : GV) : ∀ i ∈ levelIssues env g, i.sub = none := by
+  intro i hi
+  simp only [levelIssues, List.mem_append, List.mem_flatMap] at hi
+  rcases hi with (⟨t, _, h⟩ | ⟨t, _, h⟩) | h
+  · split at h
+    · simp only [List.mem_singleton] at h; subst h; rfl
+    · simp at h
+  · split at h
+    · simp only [List.mem_append, List.mem_singleton] at h
+      cases h with
+      | inl h =>
+        split at h
+        · simp only [List.mem_singleton] at h; subst h; rfl
+        · split at h
+          · simp only [List.mem_singleton] at h; subst h; rfl
+          · simp at h
+      | inr h => subst h; rfl
+    · simp at h
+  · split at h
+    · split at h
+      · simp only [List.mem_singleton] at h; subst h; rfl
+      · simp at h
+    · simp at h
+
+theorem group_nosub (env : Env) (g : GV) : ∀ i ∈ groupIssues env g, i.sub = none := by
+  intro i hi
+  simp only [groupIssues, List.mem_append] at hi
+  cases hi with
+  | inl h =>
+    split at h
+    · simp only [List.mem_singleton] at h; subst h; rfl
+    · simp at h
+  | inr h => exact level_nosub env g i h
+
+theorem repeatIssue_sub (n : RNode) : (repeatIssue n).sub = none := by cases n <;> rfl
+
+mutual
+theorem dupNode_nosub (env : Env) : ∀ (n : RNode), ∀ i ∈ dupNode env n, i.sub = none
+  | .tag _, i, hi => by simp [dupNode] at hi
+  | .group _ kids, i, hi => by simp only [dupNode] at hi; exact dupList_nosub env none kids i hi
+theorem dupList_nosub (env : Env) : ∀ (prev : Option RNode) (l : List RNode), ∀ i ∈ dupList env prev l, i.sub = none
+  | _, [], i, hi => by simp [dupList] at hi
+  | prev, c :: cs, i, hi => by
+    simp only [dupList, List.mem_append] at hi
+    rcases hi with (h | h) | h
+    · split at h
+      · simp only [List.mem_singleton] at h; subst h; exact repeatIssue_sub c
+      · simp at h
+    · exact dupNode_nosub env c i h
+    · exact dupList_nosub env (some c) cs i h
+end
+
+theorem duration_nosub (env : Env) (root : List RNode) : ∀ i ∈ durationIssues env root, i.sub = none := by
+  intro i hi
+  simp only [durationIssues, List.mem_flatMap] at hi
+  obtain ⟨x, _, hi⟩ := hi
+  obtain ⟨top, sp, kids⟩ := x
+  simp only [] at hi
+  split at hi
+  · simp at hi
+  · split at hi
+    · simp only [List.mem_map] at hi; obtain ⟨t, _, rfl⟩ := hi; rfl
+    · split at hi
+      · simp only [List.mem_singleton] at hi; subst hi; rfl
+      · simp at hi
+
+theorem onsetDef_nosub (env : Env) (dt : RTag) : ∀ i ∈ onsetDefIssues env dt, i.sub = none := by
+  intro i hi
+  unfold onsetDefIssues at hi
+  split at hi
+  · simp only [List.mem_singleton] at hi; subst hi; rfl
+  · split at hi
+    · simp only [List.mem_singleton] at hi; subst hi; rfl
+    · simp at hi
+
+theorem onsetGroup_nosub (env : Env) (onset : RTag) (kids : List RNode) :
+    ∀ i ∈ onsetGroupIssues env onset kids, i.sub = none := by
+  intro i hi
+  unfold onsetGroupIssues at hi
+  simp only [] at hi
+  repeat' split at hi
+  all_goals first
+    | (simp only [List.mem_singleton] at hi; subst hi; rfl)
+    | (simp at hi; done)
+    | exact onsetDef_nosub env _ i (by simpa using hi)
+    | (simp only [List.mem_append, List.mem_singleton] at hi
+       rcases hi with h | h
+       · subst h; rfl
+       · exact onsetDef_nosub env _ i h)
+
+theorem onset_nosub (env : Env) (root : List RNode) : ∀ i ∈ onsetIssues env root, i.sub = none := by
+  intro i hi
+  simp only [onsetIssues, List.mem_flatMap] at hi
+  obtain ⟨x, _, hi⟩ := hi
+  exact onsetGroup_nosub env _ _ i hi
+
+theorem full_nosub (env : Env) (len : Nat) (root : List RNode) : ∀ i ∈ fullPhase env len root, i.sub = none := by
+  intro i hi
+  simp only [fullPhase, List.mem_append, List.mem_flatMap] at hi
+  rcases hi with ((((h | h) | ⟨g, _, h⟩) | h) | h) | h
+  · exact required_nosub env _ i h
+  · exact unique_nosub env _ i h
+  · exact group_nosub env g i h
+  · exact dupList_nosub env none _ i h
+  · exact duration_nosub env root i h
+  · exact onset_nosub env root i h
+
+theorem defContent_nosub (env : Env) (t : RTag) (grp : Option (List RNode)) :
+    ∀ i ∈ defContentIssues env t grp, i.sub = none := by
+  intro i hi
+  unfold defContentIssues at hi
+  split at hi
+  · simp only [List.mem_singleton] at hi; subst hi; rfl
+  · simp only [List.mem_singleton] at hi; subst hi; rfl
+  · split at hi
+    · split at hi
+      · simp only [List.mem_singleton] at hi; subst hi; rfl
+      · simp at hi
+    · simp at hi
+
+theorem defIssuesOf_nosub (env : Env) : ∀ (l : List RNode), ∀ i ∈ defIssuesOf env l, i.sub = none := by
+  intro l
+  induction l with
+  | nil => intro i hi; simp [defIssuesOf] at hi
+  | cons n ns ih =>
+    intro i hi
+    cases n with
+    | tag t =>
+      simp only [defIssuesOf, List.mem_append] at hi
+      cases hi with
+      | inl h =>
+        split at h
+        · exact defContent_nosub env t none i h
+        · simp at h
+      | inr h => exact ih i h
+    | group s ks =>
+      simp only [defIssuesOf, List.mem_append, List.mem_flatMap] at hi
+      cases hi with
+      | inl h => obtain ⟨t, _, h⟩ := h; exact defContent_nosub env t _ i h
+      | inr h => exact ih i h
+
+/-! #### tags of a group are tags of the tree -/
+
+theorem directTags_sub : ∀ (l : List RNode), ∀ t ∈ directTags l, t ∈ tagsList l := by
+  intro l
+  induction l with
+  | nil => intro t h; simp [directTags] at h
+  | cons n ns ih =>
+    intro t h
+    cases n with
+    | tag t0 =>
+      simp only [directTags, List.mem_cons] at h
+      simp only [tagsList, tagsNode, List.mem_append, List.mem_singleton]
+      cases h with
+      | inl e => exact Or.inl e
+      | inr e => exact Or.inr (ih t e)
+    | group s ks =>
+      simp only [directTags] at h
+      simp only [tagsList, List.mem_append]
+      exact Or.inr (ih t h)
+
+mutual
+theorem groupsNode_tags : ∀ (top : Bool) (n : RNode) (g : GV), g ∈ groupsNode top n →
+    ∀ t ∈ tagsList g.kids, t ∈ tagsNode n
+  | _, .tag _, g, hg, _, _ => by simp [groupsNode] at hg
+  | top, .group s kids, g, hg, t, ht => by
+    simp only [groupsNode, List.mem_cons] at hg
+    simp only [tagsNode]
+    cases hg with
+    | inl e => subst e; exact ht
+    | inr e => exact groupsList_tags false kids g e t ht
+theorem groupsList_tags : ∀ (top : Bool) (l : List RNode) (g : GV), g ∈ groupsList top l →
+    ∀ t ∈ tagsList g.kids, t ∈ tagsList l
+  | _, [], g, hg, _, _ => by simp [groupsList] at hg
+  | top, n :: ns, g, hg, t, ht => by
+    simp only [groupsList, List.mem_append] at hg
+    simp only [tagsList, List.mem_append]
+    cases hg with
+    | inl e => exact Or.inl (groupsNode_tags top n g e t ht)
+    | inr e => exact Or.inr (groupsList_tags top ns g e t ht)
+end
+
+theorem allGroups_tags (len : Nat) (root : List RNode) (g : GV) (hg : g ∈ allGroups len root) :
+    ∀ t ∈ directTags g.kids, t ∈ tagsList root := by
+  intro t ht
+  have ht' := directTags_sub _ t ht
+  simp only [allGroups, List.mem_cons] at hg
+  cases hg with
+  | inl e => subst e; exact ht'
+  | inr e => exact groupsList_tags true root g e t ht'
+
+
+/-! #### the delimiter scan: positions and absence of a tag -/
+
+structure DInv (n : Nat) (st : Validate.DSt) : Prop where
+  iss : ∀ x ∈ st.issues, x.span = none ∧ ∀ k, x.chr = some k → k < n
+  last : st.last.isSome = true → st.lastIdx < n
+
+theorem dstep_inv (cd : CharData) (st : Validate.DSt) (i : Nat) (c : Char) (h : DInv i st) :
+    DInv (i + 1) (dstep cd st i c) := by
+  have hold : ∀ x ∈ st.issues, x.span = none ∧ ∀ k, x.chr = some k → k < i + 1 :=
+    fun x hx => ⟨(h.iss x hx).1, fun k hk => Nat.lt_succ_of_lt ((h.iss x hx).2 k hk)⟩
+  have hnew : ∀ (y : Issue), (y = emptyAt i ∨ ∃ t, y = commaMissing t) →
+      ∀ x ∈ st.issues ++ [y], x.span = none ∧ ∀ k, x.chr = some k → k < i + 1 := by
+    intro y hy x hx
+    rcases List.mem_append.mp hx with hx | hx
+    · exact hold x hx
+    · simp only [List.mem_singleton] at hx; subst hx
+      rcases hy with rfl | ⟨t, rfl⟩
+      · exact ⟨rfl, fun k hk => by simp [emptyAt, Issue.plain] at hk; omega⟩
+      · exact ⟨rfl, fun k hk => by simp [commaMissing, Issue.plain] at hk⟩
+  simp only [dstep]
+  repeat' split
+  all_goals first
+    | exact ⟨hold, fun hl => Nat.lt_succ_of_lt (h.last hl)⟩
+    | exact ⟨hold, fun _ => Nat.lt_succ_self i⟩
+    | exact ⟨hnew _ (Or.inl rfl), fun hl => Nat.lt_succ_of_lt (h.last hl)⟩
+    | exact ⟨hnew _ (Or.inl rfl), fun _ => Nat.lt_succ_self i⟩
+    | exact ⟨hnew _ (Or.inr ⟨_, rfl⟩), fun _ => Nat.lt_succ_self i⟩
+    | exact ⟨hnew _ (Or.inr ⟨_, rfl⟩), fun hl => Nat.lt_succ_of_lt (h.last hl)⟩
+
+theorem drun_inv (cd : CharData) : ∀ (s : Str) (st : Validate.DSt) (i : Nat), DInv i st → DInv (i + s.length) (drun cd st i s) := by
+  intro s
+  induction s with
+  | nil => intro st i h; simpa [drun] using h
+  | cons c cs ih =>
+    intro st i h
+    have := ih _ (i + 1) (dstep_inv cd st i c h)
+    simp only [drun, List.length_cons]
+    rwa [show i + (cs.length + 1) = i + 1 + cs.length by omega]
+
+theorem delimIssues_props (cd : CharData) (text : Str) :
+    ∀ x ∈ delimIssues cd text, x.span = none ∧ ∀ k, x.chr = some k → k < text.length := by
+  have h : DInv text.length (drun cd {} 0 text) := by
+    simpa using drun_inv cd text {} 0 ⟨fun x hx => (by cases hx), fun hl => (by cases hl)⟩
+  intro x hx
+  simp only [delimIssues, List.mem_append] at hx
+  cases hx with
+  | inl hx => exact h.iss x hx
+  | inr hx =>
+    split at hx
+    · rename_i hl
+      simp only [List.mem_singleton] at hx; subst hx
+      have hl' : (drun cd {} 0 text).last = some ',' := by simpa using hl
+      have := h.last (by rw [hl']; rfl)
+      exact ⟨rfl, fun k hk => by simp [emptyAt, Issue.plain] at hk; omega⟩
+    · simp at hx
+
+theorem charIssuesFrom_props (env : Env) (ph : Bool) : ∀ (s : Str) (n : Nat),
+    ∀ x ∈ charIssuesFrom env ph n s, x.span = none ∧ ∀ k, x.chr = some k → k < n + s.length := by
+  intro s
+  induction s with
+  | nil => intro _ x hx; simp [charIssuesFrom] at hx
+  | cons c cs ih =>
+    intro n x hx
+    simp only [charIssuesFrom, List.mem_append, List.length_cons] at hx ⊢
+    cases hx with
+    | inl h =>
+      split at h
+      · simp only [List.mem_singleton] at h; subst h
+        exact ⟨rfl, fun k hk => by simp [charIssue] at hk; omega⟩
+      · simp at h
+    | inr h =>
+      have := ih (n + 1) x h
+      exact ⟨this.1, fun k hk => by have := this.2 k hk; omega⟩
+
+/-- **Character offsets of the string phase.** Every issue of the raw-string checks that carries a
+`char_index` (forbidden character, tilde, empty tag) is reported by `validate` and points inside the text. -/
+theorem issue_char_index_in_text (env : Env) (ph : Bool) (text : Str) (i : Issue)
+    (hi : i ∈ stringIssues env ph text (parse env text)) (k : Nat) (hk : i.chr = some k) :
+    i ∈ validate env ph text ∧ k < text.length := by
+  refine ⟨reach_string hi, ?_⟩
+  simp only [stringIssues, stringPhase, List.mem_append, List.mem_flatMap] at hi
+  rcases hi with ((h | h) | h) | ⟨t, _, h⟩
+  · have := (charIssuesFrom_props env ph text 0 i h).2 k hk; omega
+  · simp only [parenIssues] at h
+    split at h
+    · simp only [List.mem_singleton] at h; subst h; simp [Issue.plain] at hk
+    · simp at h
+  · exact (delimIssues_props env.cd text i h).2 k hk
+  · simp only [slashIssues, List.mem_map] at h
+    obtain ⟨m, _, rfl⟩ := h
+    simp [subIssue, Issue.plain] at hk
+
+theorem string_ok (env : Env) (ph : Bool) (text : Str) : ∀ i ∈ S env ph text, IssueOK text i := by
+  intro i hi
+  simp only [S, stringIssues, stringPhase, List.mem_append, List.mem_flatMap] at hi
+  rcases hi with ((h | h) | h) | ⟨t, ht, h⟩
+  · exact issueOK_nospan (charIssuesFrom_props env ph text 0 i h).1
+  · simp only [parenIssues] at h
+    split at h
+    · simp only [List.mem_singleton] at h; subst h; exact issueOK_nospan rfl
+    · simp at h
+  · exact issueOK_nospan (delimIssues_props env.cd text i h).1
+  · exact slashIssues_ok (root0_ok env text t ht) i h
+
+/-- **Tag-relative indices.** For every schema / environment / placeholder mode / text: every issue reported by
+`validate` that names a tag (span `(s, e)`) and carries an index pair `(a, b)` has `a ≤ b ≤ e − s`, and the
+tag lies in the text (`s ≤ e ≤ len(text)`, from C02's `nesting_depth` / `tiling`) — the premise of
+`C12.offsets_in_range`.  Hypotheses: `hst` — re-resolving an identified tag from its short form changes nothing
+(C03's fixpoint; reported per case by the driver); `hd` — either no definitions are declared, or the value of a
+Def tag is located in the Def tag itself (fixes/C01_def_value_char_index.diff; without it
+`def_value_index_counterexample`). -/
+theorem issue_indices_in_tag (env : Env) (ph : Bool) (text : Str) (hst : LookupStable env text)
+    (hd : env.var.defCharRelocate = true ∨ env.defs = []) (i : Issue) (hi : i ∈ validate env ph text)
+    (s e a b : Nat) (hspan : i.span = some (s, e)) (hsub : i.sub = some (a, b)) :
+    a ≤ b ∧ b ≤ e - s ∧ s ≤ e ∧ e ≤ text.length := by
+  have key : IssueOK text i := by
+    rcases (reported_iff_earlier_phases_silent env ph text i).1 hi with h | ⟨_, _, h⟩ | ⟨_, _, _, h⟩ | ⟨_, _, h⟩
+    · exact string_ok env ph text i h
+    · simp only [T, tagIssues, List.mem_append, List.mem_flatMap] at h
+      rcases h with ⟨t, ht, h⟩ | h
+      · exact tagCharIssues_ok (root0_ok env text t ht) env ph i h
+      · exact lookup_ok env text hst i h
+    · simp only [M, semIssues, List.mem_append] at h
+      cases h with
+      | inl h =>
+        simp only [individualPhase, List.mem_flatMap] at h
+        obtain ⟨g, hg, t, ht, h⟩ := h
+        exact tagSemIssues_ok (root1_ok env text hst t (allGroups_tags _ _ g hg t ht)) env ph _ hd i h
+      | inr h =>
+        simp only [defPhase, List.mem_flatMap] at h
+        obtain ⟨g, _, h⟩ := h
+        exact issueOK_nosub (defIssuesOf_nosub env _ i h)
+    · exact issueOK_nosub (full_nosub env _ _ i h)
+  exact key s e a b hspan hsub
+
 /-! ### conforming annotations -/
 
 /-- Every rule predicate is false of the text.  For the character, parenthesis and slash rules the predicate is
 spelled out; for the others it is "the rule function reports no error on this tag / group / string".
-EXCLUDED (not in the model): declared definitions (Def / Def-expand contents and values, Onset/Offset/Inset
-with their Def), several schemas. -/
+The definition dictionary is part of `env` (`env.defs`), so declared Def / Def-expand / Onset groups are covered.
+STILL EXCLUDED (not in the model): several schemas at once (`HedSchemaGroup`); a definition whose placeholder tag
+has neither unit nor value classes (the model answers `unmodelled`); dictionaries that `DefinitionDict` itself
+would reject (more than one placeholder tag, a value-taking definition without content). -/
 structure Clean (env : Env) (ph : Bool) (text : Str) : Prop where
   chars : ∀ c ∈ text, badChar env ph c = false
   parens : Paren.mismatch text = false
@@ -651,8 +1925,8 @@ theorem clean_F {env : Env} {ph : Bool} {text : Str} (h : Clean env ph text) : e
   rw [h.required, h.unique, errors_flatMap_nil _ _ h.groups, h.noRepeat, h.duration, h.temporal]
   rfl
 
-/-- Conforming annotation (every modelled rule predicate false) ⇒ no error-severity issue.
-Partial: definition dictionaries are outside the model (see `Clean`). -/
+/-- Conforming annotation (every rule predicate false, declared definitions used correctly included) ⇒ no
+error-severity issue.  Still partial: see the exclusions listed at `Clean`. -/
 theorem valid_no_error_partial (env : Env) (ph : Bool) (text : Str) (h : Clean env ph text) :
     errors (validate env ph text) = [] := by
   rw [phase_structure]
@@ -678,7 +1952,8 @@ open HedVerif HedVerif.Schema HedVerif.Validate HedVerif.C01
 
 def names : List Str :=
   [['R','e','d'], ['I','t','e','m'], ['I','t','e','m','/','O','b','j','e','c','t'], ['L','a','b','e','l'],
-   ['L','a','b','e','l','/','#'], ['E','v','e','n','t','-','c','o','n','t','e','x','t'], ['D','e','f'], ['D','e','f','/','#']]
+   ['L','a','b','e','l','/','#'], ['E','v','e','n','t','-','c','o','n','t','e','x','t'], ['D','e','f'], ['D','e','f','/','#'],
+   ['D','e','f','-','e','x','p','a','n','d'], ['D','e','f','-','e','x','p','a','n','d','/','#']]
 
 /-- Red; Item (extension allowed) > Object; Label (requireChild) > # (takesValue, nameClass);
 Event-context (topLevelTagGroup, unique); Def (requireChild) > # -/
@@ -687,7 +1962,8 @@ def env : Env :=
     attrs := #[{}, { extensionAllowed := true }, { extensionAllowed := true, parent := some 1 }, { requireChild := true },
                { takesValue := true, valueClasses := [['n','a','m','e','C','l','a','s','s']], parent := some 3 },
                { topLevelTagGroup := true, unique := true }, { requireChild := true },
-               { takesValue := true, parent := some 6 }],
+               { takesValue := true, parent := some 6 }, { requireChild := true, tagGroup := true },
+               { takesValue := true, parent := some 8 }],
     mods := [], unitClasses := #[], modern := true, cd := {} }
 
 def red : Str := ['R','e','d']
@@ -727,5 +2003,43 @@ example : (¬ Spec.codeOf .badValue ∈ codes (errors (validate env false ['L','
   decide +kernel
 /-- the empty-duplicate crash of the unchanged duplicate walk is part of the model -/
 example : raises env false ['(',')',',','(',')'] = true := by decide +kernel
+
+/-! #### declared definitions -/
+
+def pContent : Str := ['L','a','b','e','l','/','a','a','a','a','#']
+/-- definitions `P/#` ↦ `(Label/aaaa#)` and `A` ↦ `(Red)` -/
+def envD : Env :=
+  { env with defs := [⟨['p'], true, resolveList env pContent (Tree.construct pContent)⟩,
+                      ⟨['a'], false, resolveList env red (Tree.construct red)⟩] }
+def envDfixed : Env := { envD with var := { defCharRelocate := true } }
+
+def outOfTag (i : Issue) : Bool :=
+  match i.span, i.sub with
+  | some (s, e), some (_, b) => decide (e - s < b)
+  | _, _ => false
+
+/-- **Counter-example on the unchanged code** (`_check_value_class` with `report_as`): the character error of
+the value of `Def/P/x$` is reported with an index pair beyond the 8 characters of the tag (real code: 29–30 with
+`Label/aaaaaaaaaaaaaaaaaaaaaaaa#`); with `_relocate_errors` every pair is inside. -/
+theorem def_value_index_counterexample :
+    (validate envD false ['D','e','f','/','P','/','x','$']).any outOfTag = true ∧
+    (validate envDfixed false ['D','e','f','/','P','/','x','$']).any outOfTag = false ∧
+    Spec.codeOf .forbiddenCharacter ∈ codes (errors (validate envDfixed false ['D','e','f','/','P','/','x','$'])) := by
+  decide +kernel
+
+/-- the hypothesis of `issue_indices_in_tag` is satisfiable -/
+example : LookupStable env conf := by unfold LookupStable; decide +kernel
+example : LookupStable envD ['(','D','e','f','-','e','x','p','a','n','d','/','A',',','(','R','e','d',')',')'] := by
+  unfold LookupStable; decide +kernel
+
+/-- correct use of declared definitions reports no error; the two new injection kinds fire -/
+example : errors (validate envD false
+    ['(','D','e','f','-','e','x','p','a','n','d','/','A',',','(','R','e','d',')',')',',','D','e','f','/','P','/','x']) = [] := by
+  decide +kernel
+example : Spec.codeOf .wrongDefValue ∈ codes (errors (validate envD false ['D','e','f','/','A','/','3'])) := by decide +kernel
+example : Spec.codeOf .wrongDefValue ∈ codes (errors (validate envD false ['D','e','f','/','P'])) := by decide +kernel
+example : Spec.codeOf .alteredDefExpand ∈ codes (errors (validate envD false
+    ['(','D','e','f','-','e','x','p','a','n','d','/','A',',','(','I','t','e','m',')',')'])) := by decide +kernel
+example : Spec.codeOf .undeclaredDef ∈ codes (errors (validate envD false ['D','e','f','/','Z'])) := by decide +kernel
 
 end HedVerif.C01.Tiny
